@@ -73,7 +73,7 @@ PROPS = {
     "C14": {
         "lean": "Emu.Props.C14",
         "diffs": [{"cmd": "bt", "scenario": "c14", "quick": 100, "thorough": 2500}],
-        "facts": ["bt.server_rpc_methods"],
+        "facts": ["bt.server_rpc_methods", "bt.table_mutex"],
         "trusted": BT_TRUST,
         "assumptions": [],
     },
@@ -168,7 +168,7 @@ PROPS = {
         "lean": "Emu.Props.C07",
         "diffs": [
             {"cmd": "gcsconc", "scenario": "c07s", "quick": 40, "thorough": 800, "corpus": "gcsconc", "args": {"quick": ["--maxruns", "250"], "thorough": ["--maxruns", "3000"]}},
-            {"cmd": "gcsconc", "scenario": "c07t", "quick": 10, "thorough": 120, "engines": "file", "corpus": "gcsconc"},
+            {"cmd": "gcsconc", "scenario": "c07t", "quick": 6, "thorough": 120, "engines": "file", "corpus": "gcsconc"},
         ],
         "facts": ["gcs.filestore_fields", "lock.state_access_outside_map_mu", "gcs.lock_keys", "gcs.filestore_mutex"],
         "trusted": GCS_TRUST + ["the per-object lock is gcsutil.TransientLockMap (C19); sync.RWMutex of the file store and the memory store's mutex make each store operation atomic (the tear scenario parks a writer between the file store's two file writes to check exactly that)"],
@@ -189,7 +189,7 @@ PROPS = {
         "diffs": [
             {"cmd": "btcrash", "scenario": "c08", "quick": 25, "thorough": 600, "corpus": "btcrash"},
         ],
-        "facts": [],
+        "facts": ["bt.table_mutex"],
         "trusted": BT_TRUST + ["rename(2)/unlink(2) are atomic; a goleveldb row write is atomic and survives the death of the process; goleveldb recovers its journal; a copy of the directory taken at an instant is what a process killed at that instant leaves (data written but not synced is in the page cache, which a copy and a restarted process both see; a machine crash is not modelled)"],
         "assumptions": ["crash positions are the request boundaries and the verifCrashPoint hooks inside SetTableMeta, newDiskDb(nuke) and leveldbRows.Clear, as the property's quantifier says; a crash in the middle of a multi-row request (MutateRows, prefix drop, purge) is outside it"],
     },
